@@ -28,6 +28,7 @@ type Env struct {
 	reach       string
 	symHeap     *symHeap // when translating a spec function body
 	inOld       bool
+	nowHeap     *HeapState // the post-state while translating inside old(...) (see now())
 	inQuant     int
 	lemmaFrame  *Frame
 	upTo        int
@@ -394,6 +395,9 @@ func (e *Env) pkgObject(obj types.Object) Val {
 		sp := g.P.Pkgs[o.Pkg().Path()]
 		if sp != nil {
 			if gl, ok := sp.Members[o.Name()].(*ssa.Global); ok {
+				if cv, ok := g.constGlobalVal(gl); ok {
+					return cv
+				}
 				addr := g.globalAddr(gl)
 				return g.loadAt(addr.Place, o.Type(), e.loadHeap())
 			}
